@@ -4,6 +4,7 @@ import io
 import itertools
 from collections import Counter
 
+import os
 import common
 import corr_detect as cd
 import gen_passwords
@@ -185,6 +186,7 @@ def run(ctx):
         if i == 1:
             # a fixed corpus of boundary shapes, whatever the seed: every keyboard run of the pool alone and embedded
             pws += gen_passwords.WALKS + ['monkey' + w for w in gen_passwords.WALKS] + [w + 'Summer1' for w in gen_passwords.WALKS]
+            pws += gen_passwords.CASED_SYMBOL_CORPUS      # symbols that str.lower() changes, in front of / behind letter runs
         if not tame:
             # put the length-changing / title-case letters around trigger patterns
             for base in ['www.a.com', 'bob@x.com', 'pass1']:
@@ -278,6 +280,39 @@ def run(ctx):
                     viol.append({'property': 'C05', 'kind': 'counters-not-tallies', 'counter': k,
                                  'diff': str(list(((+got[k]) - (+want[k])).items())[:3]) + str(list(((+want[k]) - (+got[k])).items())[:3]),
                                  'witness': {'list': pws}})
+    # "every password the trainer accepts": what reaches the parser is what the input reader yields.  A training file with plain and
+    # $HEX[] lines, some of whose payloads the filter has to reject (empty, TAB, line boundaries, control characters): whatever
+    # the reader yields is parsed by the real parser and judged by the same predicates
+    import io as _io
+    import contextlib as _ctx
+    from lib_trainer.trainer_file_input import TrainerFileInput
+    tf = os.path.join(common.scratch_dir('c05'), 'accepted.txt')
+    payloads = ['', '\t', 'a\tb', '\n', 'ab\x0bcd', '\x1f', 'pass\u2028word', 'ok1', 'Pass word', ' ', '\x00']
+    with open(tf, 'wb') as f:
+        f.write(b'password1\n$HEX[]\n\n')
+        for pl in payloads:
+            f.write(b'$HEX[' + pl.encode('utf-8').hex().encode() + b']\n')
+        f.write('Ⓐbc12\n'.encode('utf-8'))
+    try:
+        with _ctx.redirect_stdout(_io.StringIO()):
+            accepted = list(TrainerFileInput(tf, 'utf-8').read_password())
+    except Exception as e:
+        accepted = []
+        viol.append({'property': 'C05', 'kind': 'reader-raised', 'error': repr(e)[:200], 'witness': {'file': 'accepted.txt (fixed $HEX[] lines)'}})
+    mw_acc, _ = train_util.first_pass([a for a in accepted if a])
+    for pw_acc in accepted:
+        cases += 1
+        dist['accepted_via_reader'] = dist.get('accepted_via_reader', 0) + 1
+        try:
+            _line, secs_acc, info_acc = cd.real_parse_line(pw_acc, mw_acc)
+            bad_acc = check_sections(pw_acc, secs_acc, mw_acc, info_acc)
+            if not pw_acc:
+                bad_acc = bad_acc + [('empty-password-reached-the-parser', repr(secs_acc))]
+        except Exception as e:
+            bad_acc = [('parse-raised', repr(e))]
+        for kind, detail in bad_acc:
+            viol.append({'property': 'C05', 'kind': kind, 'detail': detail[:200], 'password': pw_acc, 'length_changing_lower': False,
+                         'witness': {'password': pw_acc, 'via': 'TrainerFileInput on $HEX[] lines', 'payloads': payloads}})
     if ctx.driver_ok:
         out = common.run_driver(ops)
         for i, (a, b) in enumerate(zip(out, exp)):
@@ -308,9 +343,26 @@ def replay(ctx, payload):
         return []
     common.use_impl()
     load_context_list()
+    if w.get('via'):
+        # the password came out of the input reader: does the reader (still) yield it for the recorded $HEX[] payloads?
+        import io as _io
+        import contextlib as _ctx
+        from lib_trainer.trainer_file_input import TrainerFileInput
+        tf = os.path.join(common.scratch_dir('c05'), 'replay_accepted.txt')
+        with open(tf, 'wb') as f:
+            f.write(b'password1\n$HEX[]\n\n')
+            for pl in w.get('payloads', []):
+                f.write(b'$HEX[' + pl.encode('utf-8').hex().encode() + b']\n')
+        with _ctx.redirect_stdout(_io.StringIO()):
+            accepted = list(TrainerFileInput(tf, 'utf-8').read_password())
+        if w['password'] not in accepted:
+            return []
     mw, _ = train_util.first_pass(w.get('list') or [w['password']])
     try:
         line, secs, info = cd.real_parse_line(w['password'], mw)
     except Exception as e:
         return [{'kind': 'parse-raised', 'error': repr(e)}]
-    return [{'kind': k, 'detail': d} for k, d in check_sections(w['password'], secs, mw, info)]
+    out = [{'kind': k, 'detail': d} for k, d in check_sections(w['password'], secs, mw, info)]
+    if not w['password']:
+        out.append({'kind': 'empty-password-reached-the-parser'})
+    return out
